@@ -1,6 +1,6 @@
 (* Props/C19.v — property theorems only.  C19: output tables label time correctly. *)
 From Coq Require Import ZArith QArith List.
-From GHE Require Import Base.QUtil gen.Src Model.OutputTime Proof.OutputTimeP Proof.OutputTimeSpecP.
+From GHE Require Import Base.QUtil gen.Src Model.OutputTime Proof.OutputTimeP Proof.OutputTimeSpecP Proof.H2MGenP.
 Open Scope Q_scope.
 
 (* every hour of the year 0..8759 (complete finite domain), on the function REGENERATED from output.py:
@@ -14,24 +14,23 @@ Theorem C19_convert_is_calendar : forall h : Z, (0 <= h < 8760)%Z ->
 Proof. exact convert_is_calendar. Qed.
 Print Assumptions C19_convert_is_calendar.
 
-(* elapsed hours -> fractional months (reference conversion), every rational h:
-   monotone and 1/672-Lipschitz (hence continuous) *)
+(* elapsed hours -> fractional months, on the function REGENERATED from output.py, for EVERY rational hour count:
+   it is the calendar conversion (year n, month k the first with r <= cum(k+1), value 12 n + k + (r - cum k)/hours k) *)
+Theorem C19_hours_to_month_is_calendar_conversion : forall h : Q, hours_to_month h == h2m_spec h.
+Proof. exact hours_to_month_is_spec. Qed.
+Print Assumptions C19_hours_to_month_is_calendar_conversion.
+
+(* monotone and 1/672-Lipschitz (hence continuous), every pair of rational hour counts *)
 Theorem C19_hours_to_month_monotone_continuous : forall h1 h2 : Q, h1 <= h2 ->
-  0 <= h2m_spec h2 - h2m_spec h1 /\ h2m_spec h2 - h2m_spec h1 <= (h2 - h1) / 672.
-Proof. exact h2m_spec_lipschitz. Qed.
+  0 <= hours_to_month h2 - hours_to_month h1 /\ hours_to_month h2 - hours_to_month h1 <= (h2 - h1) / 672.
+Proof. exact gen_h2m_lipschitz. Qed.
 Print Assumptions C19_hours_to_month_monotone_continuous.
 
 (* month ends are integers: in every year n, at the end of month k the value is 12 n + k *)
 Theorem C19_hours_to_month_month_ends : forall (n : Z) (k : nat), (1 <= k <= 12)%nat ->
-  h2m_spec (inject_Z (8760 * n + cal_cum k)) == inject_Z (12 * n + Z.of_nat k).
-Proof. exact h2m_spec_month_end. Qed.
+  hours_to_month (inject_Z (8760 * n + cal_cum k)) == inject_Z (12 * n + Z.of_nat k).
+Proof. exact gen_h2m_month_end. Qed.
 Print Assumptions C19_hours_to_month_month_ends.
-
-(* the function regenerated from output.py agrees with the reference on the in-Coq sample
-   (7.3 k points; a test, the unbounded agreement is NOT proved — see DESIGN C19) *)
-Theorem C19_generated_agrees_on_sample_partial : h2m_agree_on (h2m_grid_stride ++ h2m_grid_ends) = true.
-Proof. exact h2m_agree_sample. Qed.
-Print Assumptions C19_generated_agrees_on_sample_partial.
 
 (* non-vacuity: hour 1416 is 1 March 01:00 *)
 Example C19_nonvacuous : ghe_time_convert 1416 = (3, 1, 1).
